@@ -1,9 +1,9 @@
 package sim
 
 import (
-	"strings"
 	"encoding/json"
 	"fmt"
+	"strings"
 	"time"
 
 	"cosmossdk.io/log"
